@@ -155,6 +155,7 @@ enum Unit {
     Bounded { clock: usize, rate: usize, id: u64, samples: usize },
     Ports { id: u64, ops: usize },
     PortsSound { id: u64 },
+    EnvLate { clock: usize, rate: usize, shape: u8, ep: u16 },
 }
 
 #[derive(Default)]
@@ -176,6 +177,7 @@ struct Stats {
     bounded_writes: u64,
     port_reads: u64,
     port_sound: u64,
+    env_late: u64,
     port_regs: HashSet<u8>,
     samples: u64,
     distinct: HashSet<u64>,
@@ -883,6 +885,41 @@ fn ports_unit(ctx: &Ctx, seed: u64, st: &mut Stats, id: u64, ops: usize) {
     }
 }
 
+/// The envelope generator runs whether or not a channel listens to it. Twin chips get the same
+/// writes; on one the channel is in envelope mode from the start, on the other it is switched to
+/// envelope mode only after a gap (up to 1.3 s, no R11-R13 writes meanwhile). From then on both
+/// must produce the same samples.
+fn env_late_unit(ctx: &Ctx, rng: &mut Rng, st: &mut Stats, clock: usize, rate: usize, shape: u8, ep: u16) {
+    let ch = rng.below(3) as u8;
+    let gap = (rate as f64 * (0.05 + 1.25 * rng.below(1000) as f64 / 1000.0)) as usize;
+    let tail = (rate / 4).max(4000);
+    let mk = |late: bool| {
+        let mut ay = chip(clock, rate, false, 0);
+        ay.write_register(7, 0x3F);
+        ay.write_register(8 + ch, if late { 0x00 } else { 0x10 });
+        ay.write_register(11, ep as u8);
+        ay.write_register(12, (ep >> 8) as u8);
+        ay.write_register(13, shape);
+        let _ = gen(&mut ay, gap);
+        ay.write_register(8 + ch, 0x10);
+        let (l, _) = gen(&mut ay, tail);
+        l
+    };
+    let (a, b) = (mk(false), mk(true));
+    st.evals += 1;
+    st.samples += 2 * (gap + tail) as u64;
+    st.env_late += 1;
+    fp(st, 10, clock, rate, shape as u64, ep as u64);
+    // the first samples after the switch carry the filter transient of the level jump on the late chip
+    if let Some(i) = (96..tail).find(|i| (a[*i] - b[*i]).abs() > 1e-6) {
+        ctx.violation(
+            "envelope-depends-on-listeners",
+            &format!("envelope shape {} EP={} at {} Hz: {} samples after R13 the channel was switched to envelope mode; {} samples later it plays {:.5} where a channel that had been in envelope mode all along plays {:.5}", shape, ep, rate, gap, i, b[i], a[i]),
+            jobj! {"monitor"=>"envelope-late-enable","clock"=>clock,"rate"=>rate,"shape"=>shape,"envelope_period"=>ep,"channel"=>ch,"gap_samples"=>gap,"first_difference_after"=>i},
+        );
+    }
+}
+
 /// Port-level sound: the registers written through 0xFFFD/0xBFFD must reach the chip for every
 /// write, also when a write repeats the byte a register already holds – R13 restarts the envelope
 /// on every write. A one-shot decaying envelope is started, left to run out, and started again by
@@ -1170,6 +1207,12 @@ pub fn run(ctx: &Ctx) -> Evidence {
     for id in 0..ctx.scale(48, 2000) {
         units.push(Unit::PortsSound { id });
     }
+    for k in 0..ctx.scale(32, 600) {
+        let shape = (k % 16) as u8;
+        let ep = if k % 3 == 0 { 200 + rng.below(3000) as u16 } else { 3000 + rng.below(30000) as u16 };
+        let rate = *rng.pick(&[44100usize, 48000, 22050, 96000]);
+        units.push(Unit::EnvLate { clock: clocks[(k % 2) as usize], rate, shape, ep });
+    }
     // long-running kinds first for load balance
     units.sort_by_key(|u| match u {
         Unit::Noise { .. } => 0,
@@ -1193,6 +1236,7 @@ pub fn run(ctx: &Ctx) -> Evidence {
             Unit::Bounded { clock, rate, id, samples } => bounded_unit(ctx, seed, &mut st, *clock, *rate, *id, *samples),
             Unit::Ports { id, ops } => ports_unit(ctx, seed, &mut st, *id, *ops),
             Unit::PortsSound { id } => ports_sound_unit(ctx, seed, &mut st, *id),
+            Unit::EnvLate { clock, rate, shape, ep } => env_late_unit(ctx, &mut rng, &mut st, *clock, *rate, *shape, *ep),
         }
         st
     });
@@ -1216,6 +1260,7 @@ pub fn run(ctx: &Ctx) -> Evidence {
         t.bounded_writes += r.bounded_writes;
         t.port_reads += r.port_reads;
         t.port_sound += r.port_sound;
+        t.env_late += r.env_late;
         t.port_regs.extend(r.port_regs);
         t.samples += r.samples;
         t.distinct.extend(r.distinct);
@@ -1246,6 +1291,7 @@ pub fn run(ctx: &Ctx) -> Evidence {
     ev.add_num("random_history_register_writes", t.bounded_writes);
     ev.add_num("port_readbacks_compared", t.port_reads);
     ev.add_num("port_level_envelope_restart_and_pitch_cases", t.port_sound);
+    ev.add_num("envelope_late_listener_twins", t.env_late);
     ev.add_num("port_registers_read_back", t.port_regs.len() as u64);
     ev.add_num("samples_generated", t.samples);
     ev.add_num("low_rate_probes", probes);
